@@ -71,6 +71,24 @@ pub mod fieldless {
     }
 }
 
+// ---- const-evaluated type-level obligations: at module level, outside cfg(kani), decided by a native `cargo check`
+// (kani-compiler does not evaluate unused constants).  Trait-impl presence / absence by autoref specialisation.
+struct Probe<T>(core::marker::PhantomData<T>);
+trait NoPartialOrd { const HAS: bool = false; }
+impl<T> NoPartialOrd for Probe<T> {}
+impl<T: PartialOrd> Probe<T> { const HAS: bool = true; }
+// T-BEGIN fx_attr.T.msg_attr_lands_on_designated_kinds_only
+const _: () = assert!(Probe::<sv::ExecMsg>::HAS);
+const _: () = assert!(Probe::<sv::InstantiateMsg>::HAS);
+const _: () = assert!(!Probe::<sv::QueryMsg>::HAS);
+const _: () = assert!(!Probe::<sv::SudoMsg>::HAS);
+const _: () = assert!(!Probe::<sv::ContractExecMsg>::HAS);
+// T-END fx_attr.T.msg_attr_lands_on_designated_kinds_only
+// T-BEGIN fx_attr.T.msg_attr_on_fieldless_struct_messages
+const _: () = assert!(Probe::<fieldless::sv::InstantiateMsg>::HAS);
+const _: () = assert!(Probe::<fieldless::sv::MigrateMsg>::HAS);
+// T-END fx_attr.T.msg_attr_on_fieldless_struct_messages
+
 #[cfg(kani)]
 pub mod proofs {
     use super::*;
@@ -133,25 +151,8 @@ pub mod proofs {
         kani::cover!(true, "end of harness reachable");
     }
 
-    // trait-impl presence / absence, decided by rustc (autoref specialisation; no extra crates)
-    struct Probe<T>(core::marker::PhantomData<T>);
-    trait NoPartialOrd { const HAS: bool = false; }
-    impl<T> NoPartialOrd for Probe<T> {}
-    impl<T: PartialOrd> Probe<T> { const HAS: bool = true; }
-
     #[allow(unused)]
     fn t_obligations() {
-        // T-BEGIN fx_attr.T.msg_attr_lands_on_designated_kinds_only
-        const _: () = assert!(Probe::<sv::ExecMsg>::HAS);
-        const _: () = assert!(Probe::<sv::InstantiateMsg>::HAS);
-        const _: () = assert!(!Probe::<sv::QueryMsg>::HAS);
-        const _: () = assert!(!Probe::<sv::SudoMsg>::HAS);
-        const _: () = assert!(!Probe::<sv::ContractExecMsg>::HAS);
-        // T-END fx_attr.T.msg_attr_lands_on_designated_kinds_only
-        // T-BEGIN fx_attr.T.msg_attr_on_fieldless_struct_messages
-        const _: () = assert!(Probe::<fieldless::sv::InstantiateMsg>::HAS);
-        const _: () = assert!(Probe::<fieldless::sv::MigrateMsg>::HAS);
-        // T-END fx_attr.T.msg_attr_on_fieldless_struct_messages
         // T-BEGIN fx_attr.T.accepted
         let _ = AttrC::new();
         // T-END fx_attr.T.accepted
